@@ -378,11 +378,12 @@ def c13(ctx):
     # integers of thousands of words (formats with 20 exponent bits): the digit budgets of the recursive extraction are
     # only tight for word counts no other stream reaches; one value per word count, spread over 5800..8190 words
     l3 = []
-    for _ in range(tiers(ctx, 32, 320)):
+    for _ in range(tiers(ctx, 64, 320)):
         E, P = rng.choice([(20, 64), (20, 24), (20, 70)])
         s = Sem(E, P, "E")
         words = rng.randrange(5800, 8191)
-        e = min(s.emax, 64 * words - rng.randrange(1, 64))
+        # mostly values whose leading bit is the top bit of their top word: the left-over of the first split is largest there
+        e = min(s.emax, 64 * words - rng.choice([1, 1, 1, 1, 2, 3, rng.randrange(1, 64)]))
         l3.append("disp %s %s" % (s, ftok("N", rng.randrange(2), e, rng.choice([2 ** (P - 1), 2 ** P - 1, gen.rand_mant(rng, P)]))))
     l4 = gen.pad_lines(rng, gen.disp_lines_real(rng, 1500) + [l for l in l1 if ":N" in l or " N" in l][::7])
     for name, lines, exh in (("exh-small", l1, True), ("real-wide", l2, False), ("huge-integers", l3, False), ("padded-significands", l4, False)):
